@@ -5,8 +5,8 @@
    F19-deprecated-input-fields); their former refutation witnesses are kept below as regression
    Examples of the now-true statements. *)
 From Coq Require Import List String Ascii ZArith Bool Permutation.
-From AC Require Import Base.Sexp Base.Strs Base.Json Model.SchemaSrc Model.Loader Model.Introspect
-  Proofs.LoaderP Proofs.IntrospectP.
+From AC Require Import Base.Sexp Base.Strs Base.Json Model.SchemaSrc Model.Loader Model.Introspect Model.TopLevel
+  Proofs.LoaderP Proofs.IntrospectP Proofs.TopLevelP.
 Import ListNotations.
 Local Open Scope string_scope.
 Local Open Scope list_scope.
@@ -111,6 +111,55 @@ Example C19_split_loads_dir_regression :
   files_readable dir_witness = true /\ load_dir dir_witness = inr "type Query { a: Int }".
 Proof. split; reflexivity. Qed.
 
+(* ===================== A'. the join of the files, at token level ===================== *)
+(* "parse(join) = concatenation of the per-file definitions" is no longer assumed: over token streams
+   (lexing a join with "\n" = concatenating the token streams: tied), the automaton of Model/TopLevel.v
+   (tied to graphql-core's definition boundaries on every document of every run) splits the
+   concatenation of ANY number of accepted type-system documents into exactly the concatenation of
+   their definitions - tokens, hence extension flag, keyword and name, of every definition. *)
+Theorem C19_join_is_concat : forall docs dss,
+  Forall2 (fun d ds => split_doc d = Some ds) docs dss ->
+  split_doc (List.concat docs) = Some (List.concat dss).
+Proof. exact split_concat. Qed.
+Print Assumptions C19_join_is_concat.
+
+Theorem C19_join_summaries : forall docs sss,
+  Forall2 (fun d ss => doc_summaries d = Some ss) docs sss ->
+  doc_summaries (List.concat docs) = Some (List.concat sss).
+Proof. exact summaries_concat. Qed.
+Print Assumptions C19_join_summaries.
+
+(* the reason: where a definition may end, a token that can begin one is never a continuation *)
+Theorem C19_start_token_never_continues : forall s t,
+  accepting s = true -> is_start t = true -> step s t = step init t.
+Proof. exact step_start_from_accepting. Qed.
+
+Theorem C19_definitions_nonempty : forall ts ds, split_doc ts = Some ds ->
+  Forall (fun seg => match seg with [] => False | _ :: _ => True end) ds.
+Proof. exact split_doc_nonempty. Qed.
+
+(* the hypothesis "every file is a type-system document" is needed: `type Foo` followed by a file
+   holding the query shorthand `{ a: b }` is ONE definition (replayed on graphql-core each run) *)
+Example C19_join_needs_documents :
+  let a := [TName "type"; TName "Foo"] in
+  let b := [TBrace; TName "a"; TOther; TName "b"; TClose] in
+  option_map (@List.length _) (split_doc a) = Some 1 /\ split_doc b = None /\
+  option_map (@List.length _) (split_doc (a ++ b)) = Some 1 /\
+  doc_summaries (a ++ b) = Some [Some (false, "type", "Foo")].
+Proof. repeat split. Qed.
+
+Example C19_join_hypotheses_met :
+  let d1 := [TStr; TName "type"; TName "type"; TName "implements"; TName "I"; TAmp; TName "J"; TAt; TName "d";
+             TParen; TName "x"; TOther; TBrace; TClose; TClose; TBrace; TName "input"; TOther; TName "enum"; TClose;
+             TName "union"; TName "U"; TEq; TPipe; TName "type"; TPipe; TName "B"] in
+  let d2 := [TName "extend"; TName "schema"; TAt; TName "a";
+             TName "directive"; TAt; TName "on"; TName "repeatable"; TName "on"; TName "FIELD"; TPipe; TName "OBJECT"] in
+  doc_summaries d1 = Some [Some (false, "type", "type"); Some (false, "union", "U")] /\
+  doc_summaries d2 = Some [Some (true, "schema", "schema"); Some (false, "directive", "@on")] /\
+  doc_summaries (d1 ++ d2) = Some [Some (false, "type", "type"); Some (false, "union", "U");
+                                   Some (true, "schema", "schema"); Some (false, "directive", "@on")].
+Proof. repeat split. Qed.
+
 (* ===================== B. the introspection request ===================== *)
 Theorem C19_headers_resolved : forall en hs xs,
   resolve_headers en hs = inr xs <-> Forall2 (header_ok en) hs xs.
@@ -145,6 +194,26 @@ Theorem C19_request_sent : forall en s q,
    Forall2 (header_ok en) (s_headers s) (q_headers q)).
 Proof. exact request_of_spec. Qed.
 Print Assumptions C19_request_sent.
+
+(* several generations in one process over one configuration object, the environment changing in
+   between: each sees the configuration as written (by construction of the model; the tie runs such
+   histories on the real settings objects and through main.client) *)
+Theorem C19_history_independent : forall cfg ens,
+  run_history cfg ens = (map (fun en => request_of en cfg) ens, cfg).
+Proof. exact history_independent. Qed.
+
+(* why that matters even under a constant environment: resolution is not idempotent in general ... *)
+Theorem C19_resolve_not_idempotent : exists en hs xs,
+  resolve_headers en hs = inr xs /\ resolve_headers en xs <> inr xs.
+Proof.
+  exists [("A", "$B"); ("B", "b")], [("H", "$A")], [("H", "$B")]. split; [reflexivity | vm_compute; discriminate].
+Qed.
+
+(* ... it is exactly when no resolved value begins with "$" *)
+Theorem C19_resolve_idempotent_partial : forall en hs xs,
+  resolve_headers en hs = inr xs -> no_dollar xs = true -> resolve_headers en xs = inr xs.
+Proof. exact resolve_idempotent_partial. Qed.
+Print Assumptions C19_resolve_idempotent_partial.
 
 (* ===================== C. introspection outcomes ===================== *)
 (* full statement, proved: every failure class surfaces as the introspection error *)
